@@ -584,6 +584,12 @@ theorem hrr_checks_total (h : Hrr) (hwf : h.keyShare2.isDup = true → h.parse2 
                 | nil => simp [Out.noEscape]
                 | cons g tl => simp only; repeat' (first | rfl | split)
 
+/-- the consistency checks between a cached session and the new ClientHello (between the
+    record_size_limit check and the certificate selection) answer or go on, whatever the features -/
+theorem resume_checks_total (r : Resume) : (resumeChecks r).noEscape = true := by
+  unfold resumeChecks
+  repeat' (first | rfl | split)
+
 /-- non-vacuity: honest flights pass, a few broken ones get the alert the code sends -/
 example : server13 ⟨true, false⟩ [{ htype := 11 }, { htype := 15 }, { ctype := 20, ccs := [1] }, { htype := 20 }] = .pass := rfl
 example : server13 ⟨true, false⟩ [{ htype := 11, b1 := false }, { htype := 20, b1 := false }]
